@@ -3,7 +3,7 @@ import re
 from .. import suite_pickle
 from ..runner import Violation
 
-RULE = ('17 pipelines over sources, transforms (private parameters, constructor arguments, keyword bindings via Function(f, ..., '
+RULE = ('25 pipelines (17 fixed, 5 fixed and 3 seed-dependent combinations of several dataset-wide layers - Filter, keep, CheckIds, Merge, GroupBy - under disk and column caches) over sources, transforms (private parameters, constructor arguments, keyword bindings via Function(f, ..., '
         'name=...)), Apply, nested chains, Merge, Filter (table predicate, keep, drop, over a keyword-bound field), CheckIds, GroupBy, '
         'CacheToRam (unbounded, LRU), CacheToDisk, CacheColumns; single and multi-field compilations; every compiled function is '
         'called on 7 ids (which populates the caches), pickled, unpickled in-process and in a fresh interpreter (PYTHONHASHSEED=7): '
